@@ -63,7 +63,7 @@ AmplifyRepeat(item) == item.k = "txt" \/ (item.k = "f" /\ item.ty \in StrTypes)
 \* any other for the item-wise descriptors.
 ExtremeReversed == [op |-> "extreme_reversed", of |-> {"set_num", "set_textnum", "set_lit_byte", "set_txt_index"}]
 
-BombMiB == 300
+BombMiB == 128
 BombDeclared == {4096, 8 * 1024 * 1024 - 1}      \* declared sizes (the second one just below the largest a client accepts)
 
 \* which items a descriptor applies to
